@@ -94,7 +94,14 @@ class PEllipsoidSurface:
     def dist(s, x):
         q = s.solid.loc(x)
         e = s.solid.e
-        if np.sum((q / e) ** 2) >= 1.0:
+        F = float(np.sum((q / e) ** 2))
+        if abs(F - 1.0) <= 1e-6:
+            # (numerically) on the surface: first-order distance |F-1| / |grad F|; the global search below has a
+            # resolution error of up to ~1e-4 of the size for very flat ellipsoids (it flagged a correct answer of the
+            # library on radii (29.4, 0.2, 50) in the thorough tier)
+            g = float(np.linalg.norm(2.0 * q / e ** 2))
+            return abs(F - 1.0) / g if g > 0 else 0.0
+        if F >= 1.0:
             return O.dist_ellipsoid_surface(q, e)
         return _dist_inside_ellipsoid(q, e)
 
